@@ -93,11 +93,11 @@ func c12Main(fl *evid.Flags) int {
 
 	thorough := fl.Tier == "thorough"
 	start := time.Now()
-	phaseSequentialIsolation(run, env, evid.Tiered(fl.Tier, 6, 60))
+	phaseSequentialIsolation(run, env, evid.Tiered(fl.Tier, 18, 60))
 	tIso := time.Since(start)
 	phaseEnumeration(run, env, evid.Tiered(fl.Tier, 2, 12))
 	tEnum := time.Since(start)
-	phaseRandom(run, env, evid.Tiered(fl.Tier, 6, 200), evid.Tiered(fl.Tier, 8, 15))
+	phaseRandom(run, env, evid.Tiered(fl.Tier, 24, 200), evid.Tiered(fl.Tier, 8, 15))
 	phaseConflist(run, env)
 	tRand := time.Since(start)
 	shards, gor, rounds := 2, 12, 6
